@@ -9,6 +9,8 @@ import (
 	"errors"
 	"fmt"
 	files "github.com/ipfs/go-ipfs-files"
+	"github.com/ipfs/ipfs-cluster/adder"
+	"github.com/ipfs/ipfs-cluster/adder/single"
 	"io"
 	"io/ioutil"
 	"mime/multipart"
@@ -1133,6 +1135,14 @@ func clientLib(c *fw.Ctx, e *env, r *fw.Rand) {
 		if r.Bool() {
 			params.StreamChannels = false
 		}
+		// options the importer depends on, including combinations where the server's
+		// default differs from what the caller asks for (cid-version 1 without raw leaves)
+		params.CidVersion = r.Intn(2)
+		params.RawLeaves = r.Bool()
+		params.Layout = r.Pick("", "trickle")
+		params.Chunker = r.Pick("size-262144", "size-1024", "size-100")
+		params.Wrap = r.Chance(1, 4)
+		params.Hidden = r.Bool()
 		out := make(chan *api.AddedOutput, 64)
 		err := cl.AddMultiFile(ctx, mfr, params, out)
 		var outs []*api.AddedOutput
@@ -1162,6 +1172,32 @@ func clientLib(c *fw.Ctx, e *env, r *fw.Rand) {
 		}
 		if len(outs) == 0 || pins != 1 {
 			c.Violation("C11/client/add-result", fmt.Sprintf("valid add: %d outputs returned, %d pins performed", len(outs), pins), nil)
+			continue
+		}
+		// the add ran with the parameters the caller gave: same root as the adder run
+		// directly with them on the same content
+		var pinned cid.Cid
+		for _, cl := range e.rec.Calls() {
+			if cl.Name() == "Cluster.Pin" {
+				pinned = cl.In.(*api.Pin).Cid
+			}
+		}
+		pp := *params
+		dir2 := files.NewMapDirectory(map[string]files.Node{"f.bin": files.NewBytesFile(data)})
+		want, werr := adder.New(single.New(e.rec.Client, pp.PinOptions, false), &pp, nil).FromFiles(ctx, dir2)
+		_ = want
+		if werr == nil {
+			// the reference run pinned its own root through the same recorder: the last Pin call
+			var ref cid.Cid
+			for _, cl := range e.rec.Calls() {
+				if cl.Name() == "Cluster.Pin" {
+					ref = cl.In.(*api.Pin).Cid
+				}
+			}
+			c.Eval(fmt.Sprintf("client/add/params/v%d/raw=%v", params.CidVersion, params.RawLeaves))
+			if ref.Defined() && pinned.Defined() && !ref.Equals(pinned) {
+				c.Violation("C11/client/add-parameters-not-carried", fmt.Sprintf("AddMultiFile(cid-version=%d raw-leaves=%v layout=%q chunker=%s wrap=%v hidden=%v) pinned %s; the adder run with these parameters on the same content gives %s", params.CidVersion, params.RawLeaves, params.Layout, params.Chunker, params.Wrap, params.Hidden, pinned, ref), nil)
+			}
 		}
 	}
 }
